@@ -488,7 +488,7 @@ theorem sigmaTR_sound (district : List Name) (ds : List Domain) (e : Expr)
       ∀ (M : Scm), M.Compatible d.graph → d.graph.WF → d.graph.Ranked → d.topo.Nodup → TopoOrdered d.graph d.topo →
         (∀ v ∈ d.graph.nodes, v ∈ d.topo) → (∀ v ∈ district, v ∈ regular d.graph) →
         (∀ a b, d.graph.BiEdge a b → isTnode a = false) →
-        ∀ σ' : Val, ProbShape d.graph.nodes d.pop (d.topo.filter (· ∈ regular d.graph)) →
+        ∀ σ' : Val, ProbShape d.pop (d.topo.filter (· ∈ regular d.graph)) →
           (∀ σ, den (M.env d.graph) σ' d.pop σ = M.Q (d.topo.filter (· ∈ regular d.graph)) σ) →
           ∀ σ, den (M.env d.graph) σ' e σ = M.Q (nsort district) σ := by
   obtain ⟨d, hd, hus, hdom⟩ := sigmaTR_uses_usable_domain district ds e h
